@@ -125,9 +125,20 @@ def one(ctx, rng, xr, dask, ops, names):
             rec.skip(name, "in-memory call raised %s" % type(e).__name__)
             continue
         sched, nw = SCHEDS[int(rng.integers(len(SCHEDS)))]
-        key = "%s|chunks=%s|%s|%s%d|lead=%d" % (name, ck, dt, sched, nw, len(lnames))
+        # which inputs are dask-backed: the spectra (default), spectra and forcing, or the forcing only
+        backing = "spectra"
+        xin, auxin = xc, aux
+        if getattr(op, "needs_wind", False) and lnames:
+            backing = str(rng.choice(["spectra", "spectra", "both", "forcing"]))
+            if backing != "spectra":
+                auxin = dict(aux)
+                for k_ in ("wspd", "wdir", "dpt"):
+                    auxin[k_] = aux[k_].chunk({d_: 1 for d_ in aux[k_].dims}) if aux[k_].dims else aux[k_]
+            if backing == "forcing":
+                xin = x
+        key = "%s|chunks=%s:%s|%s|%s%d|lead=%d" % (name, ck, backing, dt, sched, nw, len(lnames))
         try:
-            Rc = op.fn(xc, aux)
+            Rc = op.fn(xin, auxin)
             kw = {"scheduler": sched}
             if sched == "threads":
                 kw["num_workers"] = nw
